@@ -590,6 +590,15 @@ func (w *InterPod) noKeyClass(kind string, pi, ni int, key string) string {
 		// DoesNotExist and accepted by a node (claim) that lacks the label: root cause of the recorded finding
 		return "unsat-conjunction-treated-as-DoesNotExist"
 	}
+	if !w.Nodes[ni].New {
+		// an existing node has no recorded final requirements: the key was emptied on it when another pod placed there
+		// in this pass carries several topology constraints on the key (same root cause)
+		for qi := range w.Pods {
+			if qi != pi && w.Pods[qi].Placed && w.Pods[qi].Node == ni && w.sameKeyConstraints(qi, key) >= 2 {
+				return "unsat-conjunction-treated-as-DoesNotExist"
+			}
+		}
+	}
 	sfx := w.negativeSuffix(ni, key)
 	if sfx == ":existing-node-gets-domain-from-pod-NotIn-requirement" {
 		return "constraint-carrier-on-existing-node-without-topology-label:domain-assumed-from-a-pod's-NotIn-requirement"
@@ -788,6 +797,18 @@ func (w *InterPod) checkAffinity(lbls []map[string]string) []IPFinding {
 					class = "affinity-self-start-in-separate-domains:first-pod-on-claim-with-multi-valued-domain-is-not-counted"
 				}
 			}
+			if class == "affinity-self-start-in-separate-domains" {
+				for _, x := range cyc {
+					for _, y := range cyc {
+						ny := &w.Nodes[w.Pods[y].Node]
+						if x != y && ny.New && ny.MultiValuedKeys[cycKey[x]] {
+							// the pod matching x's term sits on a NodeClaim whose domain under x's key is still multi-valued:
+							// Topology.Record books nothing for it, so x's group believes no match exists anywhere
+							class = "affinity-self-start-in-separate-domains:match-on-new-claim-with-multi-valued-domain-is-not-counted"
+						}
+					}
+				}
+			}
 			out = append(out, IPFinding{
 				Class:  class,
 				ID:     "affcycle|" + strings.Join(names, ","),
@@ -893,6 +914,34 @@ func (w *InterPod) checkSpread(lbls []map[string]string) []IPFinding {
 				})
 			}
 		}
+		if noKey == "" {
+			// (classification only) a placed pod that MATCHES the group's selector without being a member sits on a node
+			// without the label next to a carrier of some constraint on this key: Karpenter booked the node, and with it
+			// every matching pod on it, in a fictitious domain, which shifts the minimum this group is measured against
+			for pi := range w.Pods {
+				nm := w.Pods[pi].Node
+				if !w.Pods[pi].Placed || !g.matches[pi] {
+					continue
+				}
+				if _, ok := domain(&w.Nodes[nm], lbls[nm], g.key); ok {
+					continue
+				}
+				if !w.Nodes[nm].New && w.negativeSuffix(nm, g.key) == ":existing-node-gets-domain-from-pod-NotIn-requirement" {
+					// (a NotIn of one pod plus a nodeSelector / chosen domain of another on the same unlabelled node)
+					noKey = "constraint-carrier-on-existing-node-without-topology-label:domain-assumed-from-a-pod's-NotIn-requirement"
+				}
+				for _, g2 := range w.groups {
+					if g2.key != g.key {
+						continue
+					}
+					for _, m := range g2.members {
+						if w.Pods[m].Node == nm && noKey == "" {
+							noKey = w.noKeyClass("spread", m, nm, g.key)
+						}
+					}
+				}
+			}
+		}
 		var worst *IPFinding
 		flaggedAll := true
 		for _, rd := range readings {
@@ -947,6 +996,11 @@ func (w *InterPod) checkSpread(lbls []map[string]string) []IPFinding {
 				if !w.Pods[pi].Placed || member[pi] {
 					cntG[d]++
 				}
+			}
+			// (classification only) a domain that received a member of G was offered by the scheduler's own domain
+			// universe, whatever the pool of the claim that carries it says about the key
+			for d := range recv {
+				foreseen[d] = true
 			}
 			// new nodes that are not enumerated hold no matching pod; whichever labels their launch produces, they
 			// add an eligible domain with count 0 when that domain is not in the universe yet
@@ -1032,6 +1086,41 @@ func (w *InterPod) checkSpread(lbls []map[string]string) []IPFinding {
 						}
 						return m, true
 					}
+					lateNarrowedMin := func() (int, bool) {
+						if !g.honorAff {
+							return 0, false
+						}
+						f2 := map[string]int{}
+						for dd, c := range full {
+							f2[dd] = c
+						}
+						extra := false
+						g2 := *g
+						g2.honorAff = false
+						for pi := range w.Pods {
+							ni := w.Pods[pi].Node
+							n := &w.Nodes[ni]
+							if !w.Pods[pi].Placed || !g.matches[pi] || !n.New || elig[ni] || lbls[ni] == nil || !w.eligible(&g2, rep, n, lbls[ni], rd) {
+								continue
+							}
+							dd, _ := domain(n, lbls[ni], g.key)
+							f2[dd]++
+							extra = true
+						}
+						if !extra {
+							return 0, false
+						}
+						m := int(^uint(0) >> 1)
+						for _, c := range f2 {
+							if c < m {
+								m = c
+							}
+						}
+						if g.c.MinDomains != nil && len(f2) < int(*g.c.MinDomains) {
+							m = 0
+						}
+						return m, true
+					}
 					switch {
 					case noKey != "":
 						// some carriers sit on nodes without the label: Karpenter booked them in a fictitious domain, the
@@ -1055,6 +1144,11 @@ func (w *InterPod) checkSpread(lbls []map[string]string) []IPFinding {
 						// (only a custom key: the values of zone / capacity-type come from the offerings and are registered as domains)
 						if keyKind(g.key) == "custom" && ((ok1 && unseen && cntG[d]-m1 <= int(g.c.MaxSkew)) || (ok2 && (len(foreseen) < len(full) || fzComplement) && cntG[d]-m2 <= int(g.c.MaxSkew))) {
 							class = "spread-maxskew-exceeded:unforeseen-domain-on-new-or-in-flight-node-of-pool-with-Exists-or-NotIn-on-the-custom-key"
+						} else if m, ok := lateNarrowedMin(); ok && cntG[d]-m <= int(g.c.MaxSkew) {
+							// does it vanish when the matching pods on new NodeClaims that the carriers' node affinity excludes in
+							// the end are counted in the domain of their claim? They were booked there while the claim's
+							// requirements still intersected the node filter; a pod added later narrowed the claim out of it
+							class = "spread-maxskew-exceeded:matching-pods-booked-on-a-new-claim-that-a-later-pod-narrowed-out-of-the-carriers'-node-affinity"
 						} else if m, ok := minOver(func(dd string) bool { return usable(w.Pods[rep].Copy, g.key, dd) }, false, g.c.MinDomains); !g.honorAff && ok && cntG[d]-m <= int(g.c.MaxSkew) {
 							// does it vanish when the global minimum is taken over the domains the carrier itself may use, as if
 							// nodeAffinityPolicy were Honor?
